@@ -18,7 +18,7 @@ CCleanup(est, e) == {q \in est : ~(e - q.e > TotalCleanupDelta)}
 
 \* PutContainerSize -> storage.Put(key(e)) ; updateEstimations(ctx, e, cid, pub, false)
 CEstPut(est, el, e, c) ==
-  LET drop == {o \in Range(el) : e - o > CleanupDelta}
+  LET drop == {o \in Rng(el) : e - o > CleanupDelta}
   IN  [est |-> (est \cup {[e |-> e, c |-> c]}) \ {[e |-> o, c |-> c] : o \in drop},
        el  |-> Append(SelectSeq(el, LAMBDA o : ~(e - o > CleanupDelta)), e)]
 
